@@ -419,3 +419,42 @@ pub mod c10 {
         }
     }
 }
+
+// ---- C08-R5 control: the representation of the mods is looked at outside `model::mods`
+pub mod model {
+    pub mod mods {
+        pub enum GameMods {
+            Lazer(u64),
+            Intermode(u32),
+            Legacy(u32),
+        }
+
+        impl GameMods {
+            /// inside the module: allowed
+            pub fn rx(&self) -> bool {
+                match self {
+                    Self::Lazer(m) => m & 128 != 0,
+                    Self::Intermode(m) | Self::Legacy(m) => m & 128 != 0,
+                }
+            }
+        }
+    }
+}
+
+pub mod c08 {
+    use crate::model::mods::GameMods;
+
+    /// must be reported: a calculator that branches on the representation itself
+    pub fn peeks_at_representation(mods: &GameMods) -> bool {
+        if let GameMods::Legacy(bits) = mods {
+            return bits & 8192 != 0;
+        }
+
+        mods.rx()
+    }
+
+    /// negative control: asks through the accessor only
+    pub fn asks_the_accessor(mods: &GameMods) -> bool {
+        mods.rx()
+    }
+}
